@@ -88,6 +88,52 @@ type Session struct {
 	// Serve, when set, replaces srv.ServeWithContext (unix/tcp variants).
 	Serve func(ctx context.Context, conn *hx.Conn)
 	WireS2C []byte
+	// Shm: a client-owned shared-memory segment. Advertise decides per call
+	// whether the request carries the segment name/size; ShmSend makes the
+	// client ship request and input batches through the segment when they fit.
+	// The client resolves and frees every pointer batch it receives.
+	Shm          *vgirpc.ShmSegment
+	Advertise    func(op *Op) bool
+	ShmSend      bool
+	ShmResolved  int
+	ShmSentCount int
+	ShmErr       error
+	advertised   bool
+}
+
+// resolve is the response-side hook: a shared-memory pointer batch is
+// materialised from the client's segment and its slot freed.
+func (s *Session) resolve(rec arrow.RecordBatch) (arrow.RecordBatch, bool) {
+	if s.Shm == nil || !vgirpc.IsShmPointerBatch(rec) {
+		return rec, false
+	}
+	out, off, release, err := vgirpc.ResolveShmBatch(rec, s.Shm)
+	if err != nil {
+		if s.ShmErr == nil {
+			s.ShmErr = fmt.Errorf("client could not resolve a pointer batch: %w", err)
+		}
+		return rec, false
+	}
+	if release {
+		_ = s.Shm.FreeOffset(off)
+	}
+	s.ShmResolved++
+	return out, true
+}
+
+// viaShm ships b through the client's segment when enabled and it fits.
+func (s *Session) viaShm(b arrow.RecordBatch) arrow.RecordBatch {
+	// only after the segment has been advertised on this connection
+	if s.Shm == nil || !s.ShmSend || !s.advertised {
+		return b
+	}
+	out, replaced, err := vgirpc.MaybeWriteToShm(b, s.Shm)
+	if err != nil || !replaced {
+		return b
+	}
+	b.Release()
+	s.ShmSentCount++
+	return out
 }
 
 // Start spawns the server and client tasks.
@@ -151,6 +197,10 @@ func (s *Session) requestBytes(op *Op) []byte {
 	}
 	m.Keys = append(m.Keys, op.Extra.Keys...)
 	m.Vals = append(m.Vals, op.Extra.Vals...)
+	if s.Shm != nil && s.Advertise != nil && s.Advertise(op) {
+		m = m.Add(hx.KShmName, s.Shm.Name()).Add(hx.KShmSize, fmt.Sprint(s.Shm.Size()))
+		s.advertised = true
+	}
 	var b arrow.RecordBatch
 	sc := op.Script.Encode()
 	switch op.Bad {
@@ -166,6 +216,11 @@ func (s *Session) requestBytes(op *Op) []byte {
 		b = hx.Int64Batch("script", []int64{1}, false)
 	default:
 		b = hx.StringBatch([]string{"script"}, []string{sc})
+	}
+	if s.Shm != nil && s.ShmSend && op.Bad == "" {
+		wb := s.viaShm(hx.WithMeta(b, m))
+		defer wb.Release()
+		return hx.EncodeStream(wb.Schema(), wb)
 	}
 	return hx.RawRequestBytes(b, m)
 }
@@ -213,7 +268,7 @@ func (s *Session) runOp(op *Op) *OpResult {
 		return res
 	}
 	if op.Kind != "stream" {
-		st, err := hx.ReadStream(s.CConn)
+		st, err := hx.ReadStreamFn(s.CConn, s.resolve)
 		if err != nil {
 			res.ClientErr = fmt.Errorf("read unary response: %w", err)
 			return res
@@ -246,6 +301,15 @@ func (s *Session) runOp(op *Op) *OpResult {
 		b := first
 		if k > 0 {
 			b = inputBatch(op, k, cancel)
+		}
+		// The client ships an input through its segment only when the server is
+		// certain to consume (resolve and free) it: lockstep exchange inputs
+		// after the first. The first input is written before anything is read
+		// and is discarded unresolved when the init handler fails; write-ahead
+		// inputs are discarded when the stream ends early. Those allocations
+		// would be the client's own to reclaim, not pointers it "received".
+		if !cancel && k >= 1 && op.WriteAhead == 0 {
+			b = s.viaShm(b)
 		}
 		err := iw.Write(b)
 		b.Release()
@@ -285,7 +349,7 @@ func (s *Session) runOp(op *Op) *OpResult {
 	var rd *ipc.Reader
 	var err error
 	if op.HasHeader {
-		st, rerr := hx.ReadStream(s.CConn)
+		st, rerr := hx.ReadStreamFn(s.CConn, s.resolve)
 		if rerr != nil {
 			res.ClientErr = fmt.Errorf("read header stream: %w", rerr)
 			return res
@@ -348,7 +412,11 @@ func (s *Session) runOp(op *Op) *OpResult {
 			closeInput()
 			return res
 		}
-		b := hx.DecodeBatch(rd.RecordBatch())
+		rec, owned := s.resolve(rd.RecordBatch())
+		b := hx.DecodeBatch(rec)
+		if owned {
+			rec.Release()
+		}
 		res.AllBatch = append(res.AllBatch, b)
 		switch b.Kind {
 		case "log":
